@@ -125,3 +125,35 @@ ROLES = {
 }
 
 COMPLETION_MARKER_PARENT = ROOT
+
+
+# ------------------------------------------------------ accessor role table
+# class -> accessor -> steps below the base tag: (tag, selector); selector in first | each | nth1 | nth-1 | each(None, -1, None)
+# 'first' and 'nth0' are the same thing; a single element_source may be read with find or findall.
+_T = ('element_target', 'first')
+_S = ('element_source', 'first')
+ACCESSOR_ROLES = {
+    'StorySend': {'story': [('copy', 'roStorySend'), ('storyID', 'first')]},
+    'StoryAppend': {'stories': [('story', 'each'), ('storyID', 'first')]},
+    'StoryDelete': {'stories': [('storyID', 'each')]},
+    'ItemDelete': {'story': [('storyID', 'first')], 'items': [('itemID', 'each')]},
+    'StoryInsert': {'target_story': [('storyID', 'first')], 'source_stories': [('story', 'each'), ('storyID', 'first')]},
+    'ItemInsert': {'story': [('storyID', 'first')], 'item': [('itemID', 'first')], 'items': [('item', 'each'), ('itemID', 'first')]},
+    'StoryMove': {'source_story': [('storyID', 'first')], 'target_story': [('storyID', 'nth1')]},
+    'ItemMoveMultiple': {'story': [('storyID', 'first')], 'item': [('itemID', 'nth-1')], 'items': [('itemID', 'each(None, -1, None)')]},
+    'StoryReplace': {'story': [('storyID', 'first')], 'stories': [('story', 'each'), ('storyID', 'first')]},
+    'ItemReplace': {'story': [('storyID', 'first')], 'item': [('itemID', 'first')], 'items': [('item', 'each'), ('itemID', 'first')]},
+    'EAStoryReplace': {'story': [_T, ('storyID', 'first')], 'stories': [_S, ('story', 'each'), ('storyID', 'first')]},
+    'EAItemReplace': {'story': [_T, ('storyID', 'first')], 'item': [_T, ('itemID', 'first')], 'items': [_S, ('item', 'each'), ('itemID', 'first')]},
+    'EAStoryDelete': {'stories': [_S, ('storyID', 'each')]},
+    'EAItemDelete': {'story': [_T, ('storyID', 'first')], 'items': [_S, ('itemID', 'each')]},
+    'EAStoryInsert': {'story': [_T, ('storyID', 'first')], 'stories': [_S, ('story', 'each'), ('storyID', 'first')]},
+    'EAItemInsert': {'story': [_T, ('storyID', 'first')], 'item': [_T, ('itemID', 'first')], 'items': [_S, ('item', 'each'), ('itemID', 'first')]},
+    'EAStorySwap': {'stories': [_S, ('storyID', 'each')]},
+    'EAItemSwap': {'story': [_T, ('storyID', 'first')], 'items': [_S, ('itemID', 'each')]},
+    'EAStoryMove': {'story': [_T, ('storyID', 'first')], 'stories': [_S, ('storyID', 'each')]},
+    'EAItemMove': {'story': [_T, ('storyID', 'first')], 'item': [_T, ('itemID', 'first')], 'items': [_S, ('itemID', 'each')]},
+}
+# accessors that name *sources* (must be mentioned by inspect()); everything else is a target/container
+SOURCE_ACCESSORS = {'stories', 'items', 'source_stories', 'source_story'}
+SOURCE_ACCESSORS_BY_CLASS = {'StorySend': {'story'}, 'StoryReplace': {'stories'}, 'ItemReplace': {'items'}}
